@@ -13,20 +13,28 @@ Obs    == ndJsonDeserialize("cobs.ndjson")
 
 DefaultsObs == [i \in DOMAIN Chains[1].defaults |-> Chains[1].defaults[i].m]
 
-StepOfJ(s) == [op |-> s.op, mode |-> s.mode, vals |-> s.vals.m, chart |-> s.chart, target |-> s.target]
+StepOfJ(s) == [op |-> s.op, mode |-> s.mode, vals |-> s.vals.m, chart |-> s.chart, target |-> s.target, fail |-> s.fail]
 StepsOfJ(j) == [n \in DOMAIN j.steps |-> StepOfJ(j.steps[n])]
 
 EchoOK(j, o) == o.id = j.id /\ o.echo.steps = j.steps /\ o.echo.defaults = Chains[1].defaults /\ o.panic = ""
 
-\* every operation of a chain is expected to succeed and to add exactly one revision
-StepRan(o, n) == o.steps[n].ok /\ Len(o.steps[n].revs) = n /\ \A r \in 1..n : o.steps[n].revs[r].rev = r
+\* every operation adds exactly one revision; it fails exactly when the chain says its cluster update
+\* fails, and the revision it leaves deployed is the one the chain expects (status bookkeeping itself
+\* is the subject of C01 / C03: a chain that does not run as planned gives no verdict here)
+StepRan(st, o, n) ==
+  LET revs == o.steps[n].revs
+      d    == DepAt(st, n + 1) IN
+  /\ o.steps[n].ok = ~Fails(st[n])
+  /\ Len(revs) = n /\ \A r \in 1..n : revs[r].rev = r
+  /\ \A r \in 1..n : (revs[r].status = "deployed") = (r = d)
+  /\ Fails(st[n]) => revs[n].status = "failed"
 
 \* the checks at step n of chain j (o: its observations), st = StepsOfJ(j)
 ChecksAt(st, o, n) ==
   LET s    == st[n]
       now  == o.steps[n].revs
       was  == IF n > 1 THEN o.steps[n - 1].revs ELSE <<>>
-      dep  == IF n > 1 THEN was[n - 1].cfg.m ELSE <<>>
+      dep  == IF n > 1 THEN was[DepAt(st, n)].cfg.m ELSE <<>>   \* the deployed revision's recorded values
       tgtOk == s.op # "rollback" \/ s.target \in 1..(n - 1)
       tgt  == IF s.op = "rollback" /\ tgtOk THEN was[s.target].cfg.m ELSE <<>>
   IN <<
@@ -50,7 +58,7 @@ Report(i) ==
       st == StepsOfJ(j) IN
   IF ~EchoOK(j, o) THEN PrintT(<<"OBSECHO", i, j.id, o.panic>>)
   ELSE \A n \in DOMAIN st :
-         IF ~StepRan(o, n) THEN PrintT(<<"OBSFAIL", i, n, j.id, o.steps[n].err>>)
+         IF ~StepRan(st, o, n) THEN PrintT(<<"OBSFAIL", i, n, j.id, o.steps[n].err>>)
          ELSE LET cs == ChecksAt(st, o, n) IN
               \A x \in DOMAIN cs :
                 IF cs[x].v THEN TRUE
